@@ -1,18 +1,18 @@
 CONSTANTS
-  MinN = 3
-  MaxN = 3
-  MinG = 1
-  MaxG = 2
-  MaxDepth = 1
-  MinDepth = 0
-  MaxIn = 2
-  MaxOut = 2
-  MaxExtraOut = 1
+  MinN = 5
+  MaxN = 5
+  MinG = 4
+  MaxG = 4
+  MaxDepth = 3
+  MinDepth = 3
+  MaxIn = 1
+  MaxOut = 1
+  MaxExtraOut = 0
   AllowNone = FALSE
   LeafChoices <- LeafQuick
   Kinds = {"graph"}
-  MaxOutsCard = 2
-  Growing = FALSE
+  MaxOutsCard = 1
+  Growing = TRUE
   EmitOn = TRUE
 INIT Init
 NEXT Next
